@@ -18,7 +18,7 @@ def format_expr(expr: Union[str, ast.AST]) -> str:
 
 
 UNQUOTED_BACKTICK_MATCHER = re.compile(
-    r"(\\\"|\"(?:\\\"|[^\"])*\"|\\'|'(?:\\'|[^'])*'|`)"
+    r"(\\\"|\"(?:\\.|[^\"\\])*\"|\\'|'(?:\\.|[^'\\])*'|`)", re.DOTALL
 )
 
 
